@@ -99,6 +99,12 @@ class SamplerRun:
         self._nreq = 0
         sp.mark_client(self.client, lambda: self.cur_req)
         if model is None:
+            if wl.get('fail_bi') is not None:
+                # injected fault: the simulator fails once, in one particular batch
+                import copy as _copy
+                spec = _copy.deepcopy(spec)
+                simn = [n for n in spec['nodes'] if n['name'] == 'sim'][0]
+                simn['cfg'] = dict(simn['cfg'], use_meta=True, fail_bi=wl['fail_bi'])
             model, _ = sp.build_model(elfi, spec, order=order)
         self.model = model
         self.consumed = []        # (call_no, batch_index, batch)
@@ -205,6 +211,16 @@ class SamplerRun:
             self.out.inconclusive = True
             self.out.ev('S step cap')
             return None
+        except sp.InjectedFailure:
+            # the exception left sample(); the user calls again. A Rejection run starts over
+            # (set_objective resets state and batch index), so what the failed attempt consumed
+            # belongs to nothing
+            self.out.stats['simulator_failure_then_retry'] += 1
+            self.out.ev('S simulator failed; sample() called again')
+            self.consumed = [c for c in self.consumed if c[0] != self.call_no]
+            self.rounds = self.rounds[:len(self.consumed)]
+            self.call_no -= 1
+            return self.sample(n_samples, **objective)
         except Exception as e:
             self.errors.append(e)
             self.out.ev('S sample raised %s' % type(e).__name__)
@@ -242,6 +258,13 @@ class SamplerRun:
             self.out.inconclusive = True
             self.out.ev('S step cap')
             return None
+        except sp.InjectedFailure:
+            self.out.stats['simulator_failure_then_retry'] += 1
+            self.out.ev('S simulator failed; manual drive started again')
+            self.consumed = [c for c in self.consumed if c[0] != self.call_no]
+            self.rounds = self.rounds[:len(self.consumed)]
+            self.call_no -= 1
+            return self.drive_manually(n_samples, peek_after=peek_after, **objective)
         except Exception as e:
             self.errors.append(e)
             self.out.ev('S manual drive raised %s' % type(e).__name__)
@@ -375,7 +398,7 @@ def gen_seed(tape):
 
 
 def gen_rejection_workload(tape, spec, pil, extra_outputs=True, allow_threshold=True,
-                           extras_optional=False, allow_default=False):
+                           extras_optional=False, allow_default=False, allow_failure=None):
     bs = tape.int('batch_size', 1, 12)
     n = tape.int('n_samples', 1, 20)
     wl = {'method': 'rejection', 'batch_size': bs, 'seed': gen_seed(tape),
@@ -392,6 +415,9 @@ def gen_rejection_workload(tape, spec, pil, extra_outputs=True, allow_threshold=
     wl['output_names'] = outs
     if tape.chance('target_is_node', 1, 4):
         wl['target_form'] = 'node'      # Rejection(model['d'], ...) instead of (model, 'd', ...)
+    if (allow_default if allow_failure is None else allow_failure) and \
+            tape.chance('simulator_failure', 1, 8):
+        wl['fail_bi'] = tape.int('failing_batch', 0, 3)
     modes = ['n_sim', 'quantile'] + (['threshold'] if allow_threshold and len(pil) >= 5 else [])
     mode = tape.choice('objective', modes)
     if allow_default and n <= 2 and tape.chance('default_objective', 1, 10):
@@ -419,6 +445,8 @@ def gen_smc_workload(tape, spec, pil):
     wl = {'method': 'smc', 'batch_size': bs, 'seed': gen_seed(tape),
           'n_samples': n}
     wl['output_names'] = list(spec['sums']) if tape.chance('out_sums', 1, 2) else []
+    if spec.get('extras') and tape.chance('out_extras', 1, 2):
+        wl['output_names'] += list(spec['extras'])
     if tape.chance('target_is_node', 1, 4):
         wl['target_form'] = 'node'
     rounds = tape.int('rounds', 2, 4)
